@@ -346,7 +346,7 @@ theorem udp4_inv {c : UdpCfg} {s : List Sent} {t : Nat} {a : Bytes} {d : Bool} {
   split at h; · simp at h
   rename_i sp dp hp
   simp only [Bool.and_eq_true, decide_eq_true_eq, Bool.or_eq_true, List.any_eq_true, and_assoc] at h
-  obtain ⟨_, _, _, _, hqd, hdp, hl, hx, _, _⟩ := h
+  obtain ⟨_, _, _, _, hqd, hdp, hl, hx, _⟩ := h
   exact ⟨v, q, sp, dp, hv, hq, hp, hqd, hdp, hl, hx⟩
 
 theorem tcpQuoted_inv {c : TcpCfg} {s : List Sent} {t : Nat} {a p : Bytes}
